@@ -555,7 +555,7 @@ func TestVerifC10(t *testing.T) {
 		case 1:
 			c10CasePolicy(h, r)
 		case 2:
-			c10CaseCPUSet(t, h, r, cg, beDir)
+			c10CaseCPUSet(t, h, r, cg, beDir, idx/4)
 		default:
 			c10CaseQuota(t, h, r, cg, beDir)
 		}
@@ -567,7 +567,10 @@ func TestVerifC10(t *testing.T) {
 		"sockets x numa x cores x 1-4 threads, two cpu-id layouts, restarting core ids, offline cpus, shuffled lists, colliding numa ids; k in [-1,n+2]) | " +
 		"cpuset (same topologies; 0-5 pods LSE/LSR/LS/BE/none/SYSTEM with disjoint or overlapping cpusets, malformed/empty/absent annotations, lifecycle " +
 		"states phase unset/Running/Running+deletionTimestamp/Pending/Succeeded/Failed/Failed+deletionTimestamp, a stream of terminating or finished LSE " +
-		"pods owning a core pair; reserved cpus none/some/all/malformed; system-QoS cpuset exclusive by default/explicit/shared/malformed; topology object " +
+		"pods owning a core pair; reserved cpus none/some/all/malformed; system-QoS cpuset exclusive by default/explicit/shared/malformed; every third case one cell of the " +
+		"systematic product {reservation absent / well-formed / cpu list rejected by cpuset.Parse / malformed JSON} x {system-QoS absent / exclusive by default / " +
+		"explicit / shared / malformed JSON / rejected cpu list exclusive by default / explicit / reversed range / rejected and shared} with 7 rejected spellings " +
+		"(\"6, 7\", \"a\", \"6-\", \"6-x\", \"1-2-3\", trailing comma, trailing newline), non-empty sets; PodMeta.CgroupDir empty or the pod's directory (BE pods: a BE pod dir of the tree); topology object " +
 		"missing; kubelet policy none/static/malformed (BE root, pod and container level read back); calcBECPUSet on the same inputs; budget from below " +
 		"2 CPUs to above the free CPUs; old BE cpuset) | " +
 		"quota (budget incl. negative/tiny, current quota -1/2000/near/far, a stream with current -1 and the target inside the 1 % band, capacity 1-96 CPUs " +
@@ -655,9 +658,100 @@ func TestVerifC10Exhaustive(t *testing.T) {
 			}
 		}
 	}
+	nPolicy := idx
+	idx = c10AnnoExhaustive(t, h, idx)
+	h.Extra("exhaustive-annotations", fmt.Sprintf("adjustByCPUSet + calcBECPUSet on one 8-CPU node: every reservation annotation in {absent, 0-1, \"0,1\", "+
+		"%d rejected spellings, malformed JSON} x every system-QoS annotation in {absent, {6-7, \"6,7\", %d rejected spellings, reversed 7-6, empty} x "+
+		"{exclusive by default, true, false}, 2 malformed JSONs} x kubelet policy {none, static} x budget {1500, 4000, 9000} x {no pod, LSE pod on 2-3}: %d cases",
+		c10Typos, c10Typos, idx-nPolicy))
 	h.Extra("exhaustive", fmt.Sprintf("calculateBESuppressCPUSetPolicy: all topologies <= 2 sockets x 2 numa x 2 cores x 2 threads x 4 id layouts, "+
-		"all sub-lists (n <= 8) / all sub-lists missing <= 3 cpus (n = 16), all k in [-1, n+1]: %d processor lists, %d calls", idx, ops))
-	h.Close("exhaustive small scope for the selection: every topology <= 2x2x2x2 (4 id layouts), every pool that is a sub-list (all for n<=8, missing<=3 for n=16), every k in [-1,n+1]; non-trivial = non-empty pool")
+		"all sub-lists (n <= 8) / all sub-lists missing <= 3 cpus (n = 16), all k in [-1, n+1]: %d processor lists, %d calls", nPolicy, ops))
+	h.Close("exhaustive small scope for the selection: every topology <= 2x2x2x2 (4 id layouts), every pool that is a sub-list (all for n<=8, missing<=3 for n=16), every k in [-1,n+1]; " +
+		"then the exhaustive annotation-shape product for the cpuset paths on one 8-CPU node (see exhaustive-annotations); non-trivial = non-empty pool / a cpuset write with an eligible CPU")
+}
+
+// c10AnnoExhaustive (thorough tier): the two cpuset paths on one 8-CPU node (4 cores x 2 threads, reserved candidates 0-1,
+// system-QoS candidates 6-7) for EVERY pair of annotation spellings; returns the next free case index.
+func c10AnnoExhaustive(t *testing.T, h *vHarness, idx int) int {
+	cg := c10NewCgroup(t)
+	beDir := koordletutil.GetPodQoSRelativePath(corev1.PodQOSBestEffort)
+	var ps []koordletutil.ProcessorInfo
+	ids := []int{0, 1, 2, 3, 4, 5, 6, 7}
+	for _, c := range ids {
+		ps = append(ps, koordletutil.ProcessorInfo{CPUID: int32(c), CoreID: int32(c / 2), SocketID: 0, NodeID: 0})
+	}
+	type resA struct {
+		anno string
+		has  bool
+		kind int // c10CSIn.resKind: 1 well-formed, 3 rejected cpu list, 4 malformed JSON
+		want []int
+	}
+	type sysA struct {
+		anno string
+		has  bool
+		kind int
+		raw  []int
+		want []int
+	}
+	res01, sys67 := []int{0, 1}, []int{6, 7}
+	resAll := []resA{{}, {`{"reservedCPUs":"0-1"}`, true, 1, res01}, {`{"resources":{"cpu":"2"},"reservedCPUs":"0,1"}`, true, 1, res01}, {`{"reservedCPUs":`, true, 4, nil}}
+	for v := 0; v < c10Typos; v++ {
+		resAll = append(resAll, resA{fmt.Sprintf(`{"reservedCPUs":"%s"}`, c10TypoCPUList(res01, v)), true, 3, nil})
+	}
+	sysAll := []sysA{{}, {anno: `{"cpuset":[1]}`, has: true, kind: 4}, {anno: `{"cpuset":`, has: true, kind: 4}}
+	for e, excl := range []string{"", `,"cpusetExclusive":true`, `,"cpusetExclusive":false`} {
+		add := func(str string, kindExcl, kindShared int, raw, want []int) {
+			k := kindExcl
+			if e == 2 {
+				k, want = kindShared, nil
+			}
+			sysAll = append(sysAll, sysA{fmt.Sprintf(`{"cpuset":"%s"%s}`, str, excl), true, k, raw, want})
+		}
+		add("6-7", 1+e, 3, sys67, sys67)
+		add("6,7", 1+e, 3, sys67, sys67)
+		add("", 1+e, 3, nil, nil)
+		add("7-6", 6, 3, sys67, nil)
+		for v := 0; v < c10Typos; v++ {
+			add(c10TypoCPUList(sys67, v), 5, 7, sys67, nil)
+		}
+	}
+	for _, ra := range resAll {
+		for _, sa := range sysAll {
+			for kp := 0; kp <= 1; kp++ {
+				for _, budget := range []int64{1500, 4000, 9000} {
+					for lse := 0; lse <= 1; lse++ {
+						r := h.Begin(idx)
+						idx++
+						if r == nil {
+							continue
+						}
+						in := &c10CSIn{ps: ps, ids: ids, nCPU: len(ids), resKind: ra.kind, sysKind: sa.kind, sysRaw: sa.raw, topoAnno: map[string]string{},
+							kp: kp, budget: budget, old: append([]int(nil), ids...)}
+						if ra.kind != 4 && ra.has {
+							in.resRaw = res01
+						}
+						if ra.has {
+							in.topoAnno[apiext.AnnotationNodeReservation] = ra.anno
+						}
+						if sa.has {
+							in.topoAnno[apiext.AnnotationNodeSystemQOSResource] = sa.anno
+						}
+						if kp == 1 {
+							in.topoAnno[apiext.AnnotationKubeletCPUManagerPolicy] = `{"policy":"static"}`
+						}
+						if lse == 1 {
+							in.pods = []c10CPod{{qos: c10QLSE, cpus: []int{2, 3}, life: 1}}
+						}
+						in.ownProtected(ra.want, sa.want)
+						h.Tag(fmt.Sprintf("annox:res-kind-%d-sys-kind-%d", ra.kind, sa.kind))
+						c10RunCPUSet(t, h, r, cg, beDir, in)
+						h.End()
+					}
+				}
+			}
+		}
+	}
+	return idx
 }
 
 func c10CaseBudget(h *vHarness, r *vRand, j int) {
@@ -824,9 +918,10 @@ type c10CSIn struct {
 	ids      []int
 	nCPU     int
 	pods     []c10CPod
-	reserved []int // effective reserved cpus
-	sysCPUs  []int // effective system-exclusive cpus
-	sysRaw   []int // cpuset named by the system-QoS annotation, exclusive or not
+	reserved []int // reserved cpus as the ORACLE reads the node-reservation annotation (c10OwnProtected)
+	sysCPUs  []int // system-exclusive cpus as the ORACLE reads the system-QoS annotation (c10OwnProtected)
+	resRaw   []int // cpus the generator put (or meant to put) into reservedCPUs: op tokens, the model decides by the shape
+	sysRaw   []int // cpuset named (or meant) by the system-QoS annotation, exclusive or not, well-formed or not: op tokens
 	sysKind  int
 	resKind  int
 	topoAnno map[string]string
@@ -1003,14 +1098,222 @@ func c10GenCPUSet(r *vRand) *c10CSIn {
 		}
 	}
 	sort.Ints(old)
-	return &c10CSIn{ps: ps, ids: ids, nCPU: nCPU, pods: pods, reserved: reserved, sysCPUs: sysCPUs, sysRaw: sysRaw, sysKind: sysKind,
+	in := &c10CSIn{ps: ps, ids: ids, nCPU: nCPU, pods: pods, resRaw: reserved, sysRaw: sysRaw, sysKind: sysKind,
 		resKind: resKind, topoAnno: topoAnno, topoNil: topoNil, kp: kp, budget: budget, old: old}
+	in.ownProtected(reserved, sysCPUs)
+	return in
+}
+
+// ---------------------------------------------------------------- the oracle's own reading of the two node annotations
+
+// c10ParseCPUList: the cpu-list grammar, strictly: "" | item ("," item)*, item = N | N-M with N <= M, N and M plain
+// decimal numbers.  ok=false for anything else (blanks, letters, signs, dangling or reversed ranges, empty items).
+func c10ParseCPUList(s string) (cpus []int, ok bool) {
+	if s == "" {
+		return nil, true
+	}
+	num := func(x string) (int, bool) {
+		if x == "" || len(x) > 6 {
+			return 0, false
+		}
+		v := 0
+		for _, ch := range x {
+			if ch < '0' || ch > '9' {
+				return 0, false
+			}
+			v = v*10 + int(ch-'0')
+		}
+		return v, true
+	}
+	seen := map[int]bool{}
+	for _, item := range strings.Split(s, ",") {
+		lo, hi := item, item
+		if i := strings.IndexByte(item, '-'); i >= 0 {
+			lo, hi = item[:i], item[i+1:]
+		}
+		a, ok1 := num(lo)
+		b, ok2 := num(hi)
+		if !ok1 || !ok2 || a > b {
+			return nil, false
+		}
+		for c := a; c <= b; c++ {
+			if !seen[c] {
+				seen[c] = true
+				cpus = append(cpus, c)
+			}
+		}
+	}
+	sort.Ints(cpus)
+	return cpus, true
+}
+
+// c10OwnProtected: the CPUs the NodeResourceTopology annotations protect, by the statement: the union of every
+// WELL-FORMED source.  A source that cannot be read (JSON or cpu list) protects nothing and says nothing about the other.
+func c10OwnProtected(anno map[string]string) (reserved, sysExcl []int) {
+	if s, ok := anno[apiext.AnnotationNodeReservation]; ok {
+		var v struct {
+			ReservedCPUs string `json:"reservedCPUs"`
+		}
+		if json.Unmarshal([]byte(s), &v) == nil {
+			if cpus, ok := c10ParseCPUList(v.ReservedCPUs); ok {
+				reserved = cpus
+			}
+		}
+	}
+	if s, ok := anno[apiext.AnnotationNodeSystemQOSResource]; ok {
+		var v struct {
+			CPUSet    string `json:"cpuset"`
+			Exclusive *bool  `json:"cpusetExclusive"`
+		}
+		if json.Unmarshal([]byte(s), &v) == nil && (v.Exclusive == nil || *v.Exclusive) { // exclusive unless it says otherwise
+			if cpus, ok := c10ParseCPUList(v.CPUSet); ok {
+				sysExcl = cpus
+			}
+		}
+	}
+	return
+}
+
+// ownProtected fills the oracle's sets from the annotation strings and cross-checks the generator's intent.
+func (in *c10CSIn) ownProtected(wantRes, wantSys []int) {
+	in.reserved, in.sysCPUs = c10OwnProtected(in.topoAnno)
+	same := func(a, b []int) bool {
+		x, y := append([]int(nil), a...), append([]int(nil), b...)
+		sort.Ints(x)
+		sort.Ints(y)
+		return fmt.Sprint(x) == fmt.Sprint(y)
+	}
+	if !same(in.reserved, wantRes) || !same(in.sysCPUs, wantSys) {
+		panic(fmt.Sprintf("C10 harness: annotations %v read as reserved %v system %v, generator meant %v / %v", in.topoAnno, in.reserved, in.sysCPUs, wantRes, wantSys))
+	}
+}
+
+// c10TypoCPUList: the cpus written the way a hand-edited annotation can carry them and cpuset.Parse rejects.
+func c10TypoCPUList(cpus []int, variant int) string {
+	first := 0
+	if len(cpus) > 0 {
+		first = cpus[0]
+	}
+	switch variant % c10Typos {
+	case 0: // "6, 7"
+		if len(cpus) >= 2 {
+			ss := make([]string, len(cpus))
+			for i, c := range cpus {
+				ss[i] = strconv.Itoa(c)
+			}
+			return strings.Join(ss, ", ")
+		}
+		return " " + strconv.Itoa(first)
+	case 1:
+		return "a"
+	case 2:
+		return strconv.Itoa(first) + "-"
+	case 3:
+		return strconv.Itoa(first) + "-x"
+	case 4:
+		return "1-2-3"
+	case 5:
+		return c10SetStr(cpus, 0) + ","
+	default:
+		return c10SetStr(cpus, 1) + "\n"
+	}
+}
+
+const (
+	c10Typos     = 7
+	c10ResShapes = 4 // 0 absent, 1 reservedCPUs well-formed, 2 reservedCPUs rejected by cpuset.Parse, 3 malformed JSON
+	c10SysShapes = 9 // 0 absent, 1 cpuset (exclusive by default), 2 cpusetExclusive true, 3 cpusetExclusive false, 4 malformed JSON,
+	// 5 rejected cpuset exclusive by default, 6 rejected cpuset cpusetExclusive true, 7 reversed range "3-1" (parses, empty), 8 rejected cpuset cpusetExclusive false
+	c10AnnoCells = c10ResShapes * c10SysShapes
+)
+
+// c10ApplyAnnoCell replaces the node-reservation and system-QoS annotations of the input by one cell of the cross
+// product {reservation shape} x {system-QoS shape}; the sets are non-empty whenever the node has CPUs, so every
+// well-formed source has something to protect.  sysKind tokens of the op line: 0-4 as before, 5 = exclusive cpuset
+// string that cpuset.Parse rejects, 6 = exclusive reversed range (parses to nothing), 7 = non-exclusive rejected string.
+func c10ApplyAnnoCell(h *vHarness, r *vRand, in *c10CSIn, cell int) {
+	resShape, sysShape := cell%c10AnnoCells/c10SysShapes, cell%c10SysShapes
+	h.Tag(fmt.Sprintf("anno-cell:res%d-sys%d", resShape, sysShape))
+	ids, nCPU := in.ids, in.nCPU
+	pick := func() []int {
+		s := c10Subset(r, ids, 1, 4)
+		if len(s) == 0 && nCPU > 0 {
+			s = []int{ids[r.Intn(nCPU)]}
+		}
+		return s
+	}
+	delete(in.topoAnno, apiext.AnnotationNodeReservation)
+	delete(in.topoAnno, apiext.AnnotationNodeSystemQOSResource)
+	var wantRes, wantSys []int
+	in.resKind, in.resRaw, in.sysKind, in.sysRaw = 0, nil, 0, nil
+	if resShape != 0 {
+		res := pick()
+		if r.Bool() && nCPU >= 2 {
+			res = []int{ids[0], ids[1]}
+		}
+		switch resShape {
+		case 1:
+			in.resKind, in.resRaw, wantRes = 1, res, res
+			in.topoAnno[apiext.AnnotationNodeReservation] = fmt.Sprintf(`{"reservedCPUs":"%s"}`, c10SetStr(res, r.Intn(2)))
+			if r.Bool() {
+				in.topoAnno[apiext.AnnotationNodeReservation] = fmt.Sprintf(`{"resources":{"cpu":"%d"},"reservedCPUs":"%s"}`, len(res), c10SetStr(res, r.Intn(2)))
+			}
+		case 2:
+			in.resKind, in.resRaw = 3, res
+			in.topoAnno[apiext.AnnotationNodeReservation] = fmt.Sprintf(`{"reservedCPUs":"%s"}`, c10TypoCPUList(res, r.Intn(c10Typos)))
+		default:
+			in.resKind = 4
+			in.topoAnno[apiext.AnnotationNodeReservation] = `{"reservedCPUs":`
+		}
+	}
+	if sysShape != 0 {
+		sys := pick()
+		if r.Bool() && nCPU >= 2 {
+			sys = []int{ids[nCPU-2], ids[nCPU-1]}
+		}
+		excl := []string{"", "", `,"cpusetExclusive":true`, `,"cpusetExclusive":false`, "", "", `,"cpusetExclusive":true`, "", `,"cpusetExclusive":false`}[sysShape]
+		if sysShape == 7 && r.Bool() {
+			excl = `,"cpusetExclusive":true`
+		}
+		str := ""
+		switch sysShape {
+		case 1, 2, 3:
+			in.sysKind, in.sysRaw = sysShape, sys
+			str = c10SetStr(sys, r.Intn(2))
+			if sysShape != 3 {
+				wantSys = sys
+			}
+		case 4:
+			in.sysKind = 4
+		case 5, 6:
+			in.sysKind, in.sysRaw = 5, sys
+			str = c10TypoCPUList(sys, r.Intn(c10Typos))
+		case 7:
+			in.sysKind, in.sysRaw = 6, sys
+			lo, hi := 1, 3
+			if len(sys) > 0 {
+				lo, hi = sys[0], sys[len(sys)-1]+1
+			}
+			str = fmt.Sprintf("%d-%d", hi, lo)
+		default:
+			in.sysKind, in.sysRaw = 7, sys
+			str = c10TypoCPUList(sys, r.Intn(c10Typos))
+		}
+		in.topoAnno[apiext.AnnotationNodeSystemQOSResource] = fmt.Sprintf(`{"cpuset":"%s"%s}`, str, excl)
+		if sysShape == 4 {
+			in.topoAnno[apiext.AnnotationNodeSystemQOSResource] = `{"cpuset":[1]}`
+			if r.Bool() {
+				in.topoAnno[apiext.AnnotationNodeSystemQOSResource] = `{"cpuset":`
+			}
+		}
+	}
+	in.ownProtected(wantRes, wantSys)
 }
 
 // envTokens: the op tokens describing everything but the budget and the old BE cpuset:
 // <n> procs* <np> pods* <resKind> <nr> res* <sysKind> <ns> sys* <topoNil> <kubeletPolicy>
 func (in *c10CSIn) envTokens(h *vHarness) []string {
-	ps, pods, reserved, sysRaw, sysKind, resKind, topoAnno, topoNil, kp := in.ps, in.pods, in.reserved, in.sysRaw, in.sysKind, in.resKind, in.topoAnno, in.topoNil, in.kp
+	ps, pods, reserved, sysRaw, sysKind, resKind, topoAnno, topoNil, kp := in.ps, in.pods, in.resRaw, in.sysRaw, in.sysKind, in.resKind, in.topoAnno, in.topoNil, in.kp
 	var tok []string
 	tok = append(tok, strings.Fields(c10ProcTokens(ps))...)
 	tok = append(tok, strconv.Itoa(len(pods)))
@@ -1030,7 +1333,8 @@ func (in *c10CSIn) envTokens(h *vHarness) []string {
 	}
 	// annotation shapes (the model decides what they protect): reservation 0 absent, 1 reservedCPUs parses, 2 unparsable
 	// cpuset string, 3 malformed JSON; system QoS 0 absent, 1 cpuset (exclusive by default), 2 cpusetExclusive=true,
-	// 3 cpusetExclusive=false, 4 malformed JSON
+	// 3 cpusetExclusive=false, 4 malformed JSON, 5 exclusive cpuset string rejected by cpuset.Parse, 6 exclusive reversed
+	// range (parses to the empty set), 7 cpusetExclusive=false with a rejected string (never parsed)
 	resTok := 0
 	if _, ok := topoAnno[apiext.AnnotationNodeReservation]; ok {
 		switch resKind {
@@ -1051,6 +1355,10 @@ func (in *c10CSIn) envTokens(h *vHarness) []string {
 		tok = append(tok, strconv.Itoa(c))
 	}
 	h.Tag(fmt.Sprintf("cpuset:sysqos-kind-%d", sysKind))
+	h.Tag(fmt.Sprintf("cpuset:reservation-kind-%d", resTok))
+	if resTok == 1 && len(reserved) > 0 && sysKind == 5 {
+		h.Tag("cpuset:reservation-valid+sysqos-rejected")
+	}
 	tok = append(tok, strconv.Itoa(vB(topoNil)), strconv.Itoa(kp))
 
 	h.Tag(fmt.Sprintf("cpuset:kubelet-policy-%d", kp))
@@ -1078,7 +1386,21 @@ func (in *c10CSIn) build(h *vHarness, r *vRand) ([]*statesinformer.PodMeta, *top
 			pod.Annotations = map[string]string{apiext.AnnotationResourceStatus: `{"cpuset": "0-"}`}
 		}
 		c10ApplyLife(pod, p.life)
-		metas = append(metas, &statesinformer.PodMeta{Pod: pod})
+		// PodMeta.CgroupDir: empty (as the package's own fixtures leave it) or the pod's cgroup directory -- for a BE pod one
+		// of the BE pod dirs of the temp tree (pod1 / pod2), whose containers the suppress path must still write although the
+		// pod carries a cpuset annotation (BECPUManager gate off); for the other classes a directory outside the BE tree
+		meta := &statesinformer.PodMeta{Pod: pod}
+		if r.Bool() {
+			if p.qos == c10QBE {
+				meta.CgroupDir = filepath.Join(koordletutil.GetPodQoSRelativePath(corev1.PodQOSBestEffort), fmt.Sprintf("pod%d", 1+i%2))
+				if p.kind == 0 && len(p.cpus) > 0 {
+					h.Tag("cpuset:be-pod-with-cpuset-in-be-cgroup")
+				}
+			} else {
+				meta.CgroupDir = filepath.Join(koordletutil.GetPodQoSRelativePath(corev1.PodQOSBurstable), fmt.Sprintf("pod-u%d", i))
+			}
+		}
+		metas = append(metas, meta)
 	}
 	var topo *topov1alpha1.NodeResourceTopology
 	if !topoNil {
@@ -1279,8 +1601,16 @@ func c10WantCPUs(budget int64, nCPU, oldLen int) int64 {
 	return want
 }
 
-func c10CaseCPUSet(t *testing.T, h *vHarness, r *vRand, cg *c10Cgroup, beDir string) {
+func c10CaseCPUSet(t *testing.T, h *vHarness, r *vRand, cg *c10Cgroup, beDir string, j int) {
 	in := c10GenCPUSet(r)
+	if j%3 == 0 { // systematic stream: every cell of {reservation shape} x {system-QoS shape}
+		c10ApplyAnnoCell(h, r, in, j/3)
+	}
+	c10RunCPUSet(t, h, r, cg, beDir, in)
+}
+
+// c10RunCPUSet: one cpuset case on a given input: calcBECPUSet, then adjustByCPUSet, on the same informer state.
+func c10RunCPUSet(t *testing.T, h *vHarness, r *vRand, cg *c10Cgroup, beDir string, in *c10CSIn) {
 	ps, ids, budget, old, kp := in.ps, in.ids, in.budget, in.old, in.kp
 	tok := []string{"cpuset", strconv.FormatInt(budget, 10), strconv.Itoa(len(old))}
 	for _, c := range old {
